@@ -92,6 +92,9 @@ structure St where
   traces : List String := []
   /-- how many times each thunk's computation was started -/
   runs : Array Nat := #[]
+  /-- ghost counter: the greatest depth (number of trace items) at which an evaluator step was
+      started (bounded by the limit, see `C10_eval_never_deeper_than_limit`) -/
+  deepest : Nat := 0
   /-- ghost flag: `set_done`'s `assert!(matches!(*state, InProgress))` failed (never, see
       `C01_eval_set_done_assertion_never_fails`) -/
   tripped : Bool := false
@@ -116,6 +119,16 @@ inductive Task where
   | compare (a b : Value) (d : Nat)
   | deep (v : Value) (d : Nat)
   | asserts (o : OId) (d : Nat)
+
+/-- the depth (number of trace items) at which a task runs -/
+def Task.depth : Task → Nat
+  | .eval _ _ _ d => d
+  | .force _ d => d
+  | .manifest _ d _ => d
+  | .equals _ _ d => d
+  | .compare _ _ d => d
+  | .deep _ d => d
+  | .asserts _ d => d
 
 /-! ### Store helpers -/
 
@@ -179,6 +192,10 @@ def getObj (o : OId) : M Obj := do
 
 def setObj (o : OId) (v : Obj) : M Unit :=
   modify fun st => { st with objs := st.objs.setIfInBounds o v }
+
+/-- ghost bookkeeping: an evaluator step starts at depth `d` -/
+def noteDepth (d : Nat) : M Unit :=
+  modify fun st => { st with deepest := max st.deepest d }
 
 /-- the `trace` callback: the message is recorded -/
 def pushTrace (msg : String) : M Unit :=
@@ -1230,10 +1247,15 @@ def step : Task → M Value
 
 end
 
+/-- one level, with the ghost note of the depth it starts at -/
+def stepN (cfg : Cfg) (rec : Task → M Value) (t : Task) : M Value := do
+  noteDepth t.depth
+  step cfg rec t
+
 /-- The evaluator with `fuel` levels of recursion. -/
 def run (cfg : Cfg) : Nat → Task → M Value
   | 0, _ => bottom
-  | n + 1, t => step cfg (run cfg n) t
+  | n + 1, t => stepN cfg (run cfg n) t
 
 /-- `Evaluator::eval` failing: thunks still in progress go back to pending. -/
 def restoreInProgress (st : St) : St :=
